@@ -18,7 +18,12 @@ file closes the two remaining gaps, about the SAME model definitions (`Model/MSD
   all-pairs definition `v_p` of the rows of `p`, with the weight `N_p` the code computes; particles
   without a pair contribute nothing; `emsd_def_none_iff`: NaN iff no particle has a pair;
   `emsd_out_of_range`: NaN outside `1 … max_lagtime`.  `emsd_sq_eq_def`, `emsd_disp_eq_def`: the same
-  for the per-coordinate columns of `emsd(detail=True)`.
+  for the per-coordinate columns of `emsd(detail=True)`.  `imsd_eq_def`: an `imsd` cell over the
+  definition; `emsdN_eq_def`: the `N` column of `emsd`.
+* further clauses: `pairs_nodup` (every pair once), `msd_lags` (max_lagtime clipping),
+  `msd_shift_invariant` (constant shift of all positions), `msd_time_reversal` (`f ↦ F − f`: only the
+  sign of `<c>` changes), `perParticle_order_indep` (row order of the multi-particle table),
+  `span_unique` (`span` is the maximal frame distance).
 -/
 namespace TrackpyV.MSD
 
@@ -729,6 +734,158 @@ theorem msd_shift_invariant (rows : List FullRow) (d : Nat) (mpp fps : Rat) (max
   simp only [defRow, msdDef, weightDef, hspan, hlen, List.map_congr_left hdisp,
     List.map_congr_left hsq]
 
+/-! ### time reversal -/
+
+/-- the trajectory run backwards: frame `f` becomes `F - f` -/
+def reverseRows (F : Int) (rows : List FullRow) : List FullRow := rows.map fun r => (F - r.1, r.2)
+
+/-- an `Out` row with the sign of the mean displacements flipped -/
+def Out.negDisp (o : Out) : Out := { o with disp := o.disp.map (Option.map fun x => -x) }
+
+theorem sum_filter_map {α} (l : List α) (p : α → Bool) (f : α → Rat) :
+    ((l.filter p).map f).sum = (l.map fun x => if p x then f x else 0).sum := by
+  induction l with
+  | nil => simp
+  | cons x xs ih =>
+    by_cases h : p x
+    · simp [h, ih]
+    · simp [h, ih]
+
+theorem diffs_sum_ind (l : List Row) (lag : Nat) (G : Rat → Rat) :
+    ((diffs l lag).map G).sum
+      = (l.map fun a => (l.map fun b => if b.1 - a.1 == (lag : Int) then G (b.2 - a.2) else 0).sum).sum := by
+  unfold diffs
+  rw [List.map_flatMap, sum_flatMap]
+  congr 1
+  apply List.map_congr_left
+  intro a _
+  rw [List.map_map, sum_filter_map]
+  rfl
+
+/-- the displacements of the reversed trajectory are the negated displacements (as a multiset:
+stated for every sum over them) -/
+theorem diffs_reverse_sum (l : List Row) (F : Int) (lag : Nat) (G : Rat → Rat) :
+    ((diffs (l.map fun r => (F - r.1, r.2)) lag).map G).sum
+      = ((diffs l lag).map fun x => G (-x)).sum := by
+  rw [diffs_sum_ind, diffs_sum_ind, List.map_map]
+  rw [sum_sum_comm l l (fun a b => if b.1 - a.1 == (lag : Int) then G (-(b.2 - a.2)) else 0)]
+  apply congrArg
+  apply List.map_congr_left
+  intro x _
+  simp only [Function.comp, List.map_map]
+  apply congrArg
+  apply List.map_congr_left
+  intro y _
+  simp only [Function.comp]
+  have h1 : F - y.1 - (F - x.1) = x.1 - y.1 := by omega
+  have h2 : y.2 - x.2 = -(x.2 - y.2) := by ring
+  rw [h1, h2]
+
+theorem diffs_reverse_length (l : List Row) (F : Int) (lag : Nat) :
+    (diffs (l.map fun r => (F - r.1, r.2)) lag).length = (diffs l lag).length :=
+  length_eq_of_sums (diffs_reverse_sum l F lag fun _ => 1)
+
+theorem sqDef_reverse (l : List Row) (F : Int) (lag : Nat) :
+    sqDef (l.map fun r => (F - r.1, r.2)) lag = sqDef l lag := by
+  unfold sqDef
+  apply meanOpt_congr (by simpa using diffs_reverse_length l F lag)
+  rw [diffs_reverse_sum l F lag sq]
+  apply congrArg
+  apply List.map_congr_left
+  intro x _
+  simp only [sq]; ring
+
+theorem sum_map_neg (l : List Rat) : (l.map fun x => -x).sum = -l.sum := by
+  induction l with
+  | nil => simp
+  | cons x xs ih => simp only [List.map_cons, List.sum_cons, ih]; ring
+
+theorem dispDef_reverse (l : List Row) (F : Int) (lag : Nat) :
+    dispDef (l.map fun r => (F - r.1, r.2)) lag = (dispDef l lag).map fun x => -x := by
+  have hs := diffs_reverse_sum l F lag id
+  simp only [List.map_id, id] at hs
+  rw [sum_map_neg] at hs
+  unfold dispDef meanOpt
+  rw [diffs_reverse_length, hs]
+  by_cases h : (diffs l lag).length = 0
+  · simp [h]
+  · simp only [h, if_false, Option.map_some]
+    congr 1; ring
+
+theorem span_attained (rows : List FullRow) (h : rows ≠ []) :
+    ∃ a ∈ rows, ∃ b ∈ rows, b.1 - a.1 = (span rows : Int) := by
+  unfold span
+  cases rows with
+  | nil => exact absurd rfl h
+  | cons r rs =>
+    simp only [List.map_cons]
+    obtain ⟨h1, _, h3⟩ := foldl_max_spec (rs.map (·.1)) r.1
+    obtain ⟨g1, _, g3⟩ := foldl_min_spec (rs.map (·.1)) r.1
+    have frame_of : ∀ v : Int, v ∈ r.1 :: rs.map (·.1) → ∃ x ∈ r :: rs, x.1 = v := by
+      intro v hv
+      rcases List.mem_cons.mp hv with rfl | hv'
+      · exact ⟨r, List.mem_cons_self .., rfl⟩
+      · obtain ⟨x, hx, rfl⟩ := List.mem_map.mp hv'
+        exact ⟨x, List.mem_cons_of_mem _ hx, rfl⟩
+    obtain ⟨b, hb, hbv⟩ := frame_of _ h3
+    obtain ⟨a, ha, hav⟩ := frame_of _ g3
+    refine ⟨a, ha, b, hb, ?_⟩
+    omega
+
+/-- `span` is THE maximal frame distance -/
+theorem span_unique (rows : List FullRow) (s : Nat)
+    (hub : ∀ a ∈ rows, ∀ b ∈ rows, b.1 - a.1 ≤ (s : Int))
+    (hat : ∃ a ∈ rows, ∃ b ∈ rows, b.1 - a.1 = (s : Int)) : span rows = s := by
+  obtain ⟨a, ha, b, hb, hab⟩ := hat
+  have hne : rows ≠ [] := by intro h; rw [h] at ha; simp at ha
+  obtain ⟨a', ha', b', hb', hab'⟩ := span_attained rows hne
+  have l1 := diff_le_span rows a ha b hb
+  have l2 := hub a' ha' b' hb'
+  omega
+
+theorem span_reverse (F : Int) (rows : List FullRow) : span (reverseRows F rows) = span rows := by
+  by_cases hne : rows = []
+  · subst hne; rfl
+  · apply span_unique
+    · intro a ha b hb
+      obtain ⟨a0, ha0, rfl⟩ := List.mem_map.mp ha
+      obtain ⟨b0, hb0, rfl⟩ := List.mem_map.mp hb
+      have := diff_le_span rows b0 hb0 a0 ha0
+      simp only
+      omega
+    · obtain ⟨a, ha, b, hb, hab⟩ := span_attained rows hne
+      refine ⟨(F - b.1, b.2), List.mem_map.mpr ⟨b, hb, rfl⟩, (F - a.1, a.2),
+        List.mem_map.mpr ⟨a, ha, rfl⟩, ?_⟩
+      simp only
+      omega
+
+theorem coord_reverse (mpp : Rat) (c : Nat) (F : Int) (rows : List FullRow) :
+    coord mpp c (reverseRows F rows) = (coord mpp c rows).map fun r => (F - r.1, r.2) := by
+  simp [coord, reverseRows, List.map_map, Function.comp_def]
+
+/-- **the statistic is symmetric under time reversal**: running the trajectory backwards
+(`f ↦ F − f`) leaves the lags, `lagt`, every `<c^2>`, `msd` and `N` unchanged and flips the sign of the
+mean displacements `<c>` -/
+theorem msd_time_reversal (rows : List FullRow) (d : Nat) (mpp fps : Rat) (maxLag : Nat) (F : Int)
+    (hnd : NodupFrames rows) :
+    msd (reverseRows F rows) d mpp fps maxLag = (msd rows d mpp fps maxLag).map Out.negDisp := by
+  have hnd' : NodupFrames (reverseRows F rows) := by
+    unfold NodupFrames List.Nodup reverseRows at *
+    rw [List.map_map, List.pairwise_map]
+    rw [List.pairwise_map] at hnd
+    refine hnd.imp ?_
+    intro a b hne hab
+    simp only [Function.comp] at hab
+    exact hne (by omega)
+  have hlen : (reverseRows F rows).length = rows.length := by simp [reverseRows]
+  rw [msd_eq_rows _ d mpp fps maxLag hnd', msd_eq_rows _ d mpp fps maxLag hnd, span_reverse,
+    List.map_map]
+  apply List.map_congr_left
+  intro i _
+  simp only [Function.comp, defRow, Out.negDisp, msdDef, weightDef, span_reverse, hlen,
+    coord_reverse, sqDef_reverse, dispDef_reverse, List.map_map]
+  rfl
+
 /-! ### row order of a multi-particle table -/
 
 theorem rowsOf_perm {t t' : List PRow} (h : t.Perm t') (p : Nat) : (rowsOf t p).Perm (rowsOf t' p) :=
@@ -820,5 +977,20 @@ example :
   simp [hids, hr1, hr2, hs1, hs2, hl1, hr, p11, p13, p15, p21, p23, p25, msdPairs, weightDef, msdN,
     wmean, sqDisp, dispOf, sq, meanOpt]
   norm_num
+
+/-- `msd_shift_invariant`, `msd_time_reversal`, `pairs_nodup`: `exRows` has one row per frame, and
+the shifted / reversed tables are different tables -/
+example : NodupFrames exRows ∧
+    reverseRows 4 exRows = [(1, [1, 2]), (4, [0, 0]), (0, [3, 1]), (3, [1, 0])] ∧
+    shiftRows 2 (fun c => (c : Rat) + 1) exRows
+      = [(3, [2, 4]), (0, [1, 2]), (4, [4, 3]), (1, [2, 2])] := by
+  refine ⟨by unfold NodupFrames; decide, by decide, ?_⟩
+  have hr : List.range 2 = [0, 1] := by decide
+  simp [shiftRows, exRows, hr]
+  norm_num
+
+/-- `perParticle_order_indep`: a genuinely different row order of `exTable` -/
+example : exTable.Perm exTable.reverse ∧ exTable.reverse ≠ exTable :=
+  ⟨(List.reverse_perm _).symm, by decide⟩
 
 end TrackpyV.MSD
